@@ -27,6 +27,7 @@ type Rule struct {
 	Min   int      // hand-confirmed minimum number of instances on a tree that has the construct at all
 	Doc   string
 	Tier  string // "" = quick+thorough, "thorough" = thorough only
+	Local bool   // the rule decides from one loop or statement of whatever function holds it (closures and iterators included): its reports are not withdrawn for functions of an opaque shape
 	Run   func(p *Prog, c *Ctx)
 }
 
